@@ -251,8 +251,8 @@ func c05Run(w *lib.Worker) {
 					if gerr != nil || strings.Join(gotS, "\n") != strings.Join(expS, "\n") {
 						sig := c05Classify(c, expS, gotS, et)
 						w.Violation(lib.Violation{Scenario: "triples", Signature: sig,
-							Summary:  fmt.Sprintf("Match(pattern=%s, datum=%s, bindings=%s) [map order #%d] = %v err=%q; reference: %v", ptxt, dtxt, b0txt, perm, gotS, et, expS),
-							Replay:   c, Expected: expS, Observed: gotS})
+							Summary: fmt.Sprintf("Match(pattern=%s, datum=%s, bindings=%s) [map order #%d] = %v err=%q; reference: %v", ptxt, dtxt, b0txt, perm, gotS, et, expS),
+							Replay:  c, Expected: expS, Observed: gotS})
 					}
 				}
 				perm = 0
@@ -376,8 +376,8 @@ func c05Decorations(w *lib.Worker, ctx *core.Context, p, d map[string]interface{
 					et = err.Error()
 				}
 				w.Violation(lib.Violation{Scenario: "decorations", Signature: sig,
-					Summary:  fmt.Sprintf("Matches(%#v, %#v) = %v err=%q but the plain JSON form gives %v", dp, dd, gotS, et, expS),
-					Replay:   c05case{p, d, nil, mask, deco}, Expected: expS, Observed: gotS})
+					Summary: fmt.Sprintf("Matches(%#v, %#v) = %v err=%q but the plain JSON form gives %v", dp, dd, gotS, et, expS),
+					Replay:  c05case{p, d, nil, mask, deco}, Expected: expS, Observed: gotS})
 			}
 		}
 	}
